@@ -88,6 +88,7 @@ class C17(Prop):
             tg(0.3)
             if rng.random() < 0.8:
                 h.append(['stopTestRun'])
+                tg(0.2)
         if 'e2s' not in kinds and rng.random() < 0.3:
             i = h.index(['startTestRun'])
             del h[i]                                           # results work without startTestRun
